@@ -54,6 +54,10 @@ RULES = [
     ("hfp", "(h (f 1 2) (p 2 1))", "(g (p 1 2))", [1, 2], [()]),
     ("hfv", "(h (f 1 2) (v 1))", "(g (v 1))", [1, 2], [()]),
     ("hfpb", "(h (f 1 2) (h ?b (p 2 1)))", "(h ?b (p 1 2))", [1, 2], [("c",), ("(v 3)",), ("(v 1)",)]),
+    # a pattern variable is bound BEFORE the first node that mentions the pattern's free slot,
+    # and its instance uses that very slot
+    ("hav", "(h ?a (v 1))", "(h (v 1) ?a)", [1], [("c",), ("(v 1)",), ("(g (v 1))",), ("(f 1 3)",), ("(v 3)",), ("(f 3 1)",)]),
+    ("haf", "(h ?a (f 1 2))", "(g ?a)", [1, 2], [("(v 1)",), ("(v 2)",), ("(f 2 1)",), ("(g (f 1 2))",), ("c",)]),
 ]
 # balanced alias unions (same free slots on both sides, no redundancy by themselves)
 ALIAS = [("(p 2 1)", "(g (p 2 1))"), ("c", "d"), ("(v 3)", "(g (v 3))"), ("(f 2 3)", "(g (f 2 3))"), ("(f 2 3)", "(f 3 2)"), ("(g c)", "d"),
